@@ -10,12 +10,50 @@ COQ_DEPS = []
 PROFILES = ["debug", "release"]       # wrapping vs checked arithmetic matters here
 CORR_IMPORT = "From Coq Require Import Numbers.Cyclic.Int63.Uint63.\nFrom RlibV Require Import C14.Model C14.Corr.\nOpen Scope Z_scope."
 CASE_TYPE = "case"
-AUDIT_IMPORT = ("From Coq Require Import ZArith NArith List Bool Permutation.\nFrom Coq Require Import Floats.SpecFloat.\n"
+AUDIT_IMPORT = ("From Coq Require Import ZArith NArith List Bool Permutation Reals.\nFrom Coq Require Import Floats.SpecFloat.\n"
+                "From Flocq Require Import Core.Defs Core.Raux IEEE754.BinarySingleNaN.\n"
                 "Import ListNotations.\n"
-                "From RlibV Require Import C14.Model C14.Corr C14.Properties.\nOpen Scope Z_scope.")
+                "From RlibV Require Import C14.Model C14.Corr C14.Spec C14.Properties.\nOpen Scope Z_scope.")
 EXPLAIN = "explain"
-AXIOM_ALLOW = []
+# only the two real-number statements (c14_float_in_range_real, c14_float_unit_in_0_1) use them: Coq's classical reals + Flocq
+AXIOM_ALLOW = ["ClassicalDedekindReals.sig_not_dec", "ClassicalDedekindReals.sig_forall_dec",
+               "FunctionalExtensionality.functional_extensionality_dep", "Classical_Prop.classic"]
+# GENERATED together with coq/theories/C14/Properties.v.  The driver's Print-Assumptions parser attributes the NEXT pin's
+# `name : type` line to the axiom list of the current pin, so only the LAST pin may depend on axioms: the two real-number
+# statements (c14_float_in_range_real, c14_float_unit_in_0_1 in Properties.v) are pinned together as the final conjunction.
 THEOREMS = [
+    ('c14_range_in_bounds',
+     'forall (sg : bool) (w : Z) (f : form) (raw : Z), valid_width w -> form_valid sg w f -> form_lo sg w f <= form_hi sg w f -> exists x, gen sg w f raw = Some x /\\ form_lo sg w f <= x <= form_hi sg w f /\\ in_ty sg w x = true'),
+    ('c14_range_reachable',
+     'forall (sg : bool) (w : Z) (f : form) (x : Z), valid_width w -> form_valid sg w f -> form_lo sg w f <= x <= form_hi sg w f -> gen sg w f (witness_raw sg w f x) = Some x /\\ 0 <= witness_raw sg w f x < 2 ^ 64'),
+    ('c14_full_range_is_truncation',
+     'forall (sg : bool) (w : Z) (raw : Z), valid_width w -> gen sg w FFull raw = Some (cast sg w raw) /\\ gen sg w (FIncl (tmin sg w) (tmax sg w)) raw = Some (cast sg w raw) /\\ in_ty sg w (cast sg w raw) = true /\\ (cast sg w raw) mod 2 ^ w = raw mod 2 ^ w'),
+    ('c14_empty_range_panics',
+     'forall (sg : bool) (w : Z) (f : form) (raw : Z), valid_width w -> form_valid sg w f -> form_hi sg w f < form_lo sg w f -> gen sg w f raw = None'),
+    ('c14_stream_deterministic',
+     "(forall sg w f n seed1 seed2, seed1 = seed2 -> stream sg w f seed1 n = stream sg w f seed2 n) /\\ (forall sg w f n m st, draws rng_next sg w f (n + m) st = match draws rng_next sg w f n st with | None => None | Some (st', xs) => match draws rng_next sg w f m st' with | None => None | Some (st'', ys) => Some (st'', xs ++ ys) end end) /\\ (forall n st, raws rng_next n st = Some (state_after n st, map out_mix (map (fun k => state_after (S k) st) (seq 0 n))))"),
+    ('c14_state_step_bijective',
+     '(forall s, 0 <= s < 2 ^ 64 -> 0 <= lcg_step s < 2 ^ 64 /\\ lcg_unstep (lcg_step s) = s) /\\ (forall t, 0 <= t < 2 ^ 64 -> 0 <= lcg_unstep t < 2 ^ 64 /\\ lcg_step (lcg_unstep t) = t)'),
+    ('c14_output_bijective',
+     'forall x, 0 <= x < 2 ^ 64 -> 0 <= out_mix x < 2 ^ 64 /\\ out_mix (out_mix x) = x'),
+    ('c14_seed_injective',
+     'forall s1 s2, 0 <= s1 < 2 ^ 64 -> 0 <= s2 < 2 ^ 64 -> snd (next_raw (from_seed s1)) = snd (next_raw (from_seed s2)) -> s1 = s2'),
+    ('c14_shuffle_permutation',
+     "forall (St A : Type) (nxt : St -> option (St * Z)) (st : St) (v : list A) (st' : St) (v' : list A), shuffle nxt st v = Some (st', v') -> Permutation v v'"),
+    ('c14_shuffle_total',
+     'forall (St A : Type) (nxt : St -> option (St * Z)) (st : St) (v : list A), (forall s, nxt s <> None) -> Z.of_nat (length v) <= 2 ^ 64 -> shuffle nxt st v <> None'),
+    ('c14_shuffle_reaches_all_partial',
+     'forall (n : nat) (p : list Z), (n <= 6)%nat -> Permutation p (zseq (N.of_nat n)) -> exists rs, length rs = (n - 1)%nat /\\ Forall (fun r => 0 <= r < 2 ^ 64) rs /\\ shuffle_script rs (zseq (N.of_nat n)) = Some p'),
+    ('c14_old_low_bits_periodic',
+     'forall (k n : nat) (st : Z), (k <= 64)%nat -> (forall s, snd (next_raw_old s) = lcg_step s /\\ fst (next_raw_old s) = lcg_step s) /\\ state_after (2 ^ k + n) st mod 2 ^ Z.of_nat k = state_after n st mod 2 ^ Z.of_nat k'),
+    ('c14_fairness_partial',
+     'forall (n : N) (p : list Z), (n = 4 \\/ n = 5 \\/ n = 6)%N -> Permutation p (zseq n) -> exists seed, In seed (seeds_for n) /\\ 0 <= seed < 2 ^ 64 /\\ shuffle_rng seed (zseq n) = Some p'),
+    ('c14_float_in_range',
+     'forall (s e : spec_float) (raw : Z), SFltb s e = true -> exists x, float_range s e raw = Some x /\\ SFleb s x = true /\\ SFltb x e = true'),
+    ('c14_float_empty_panics',
+     'forall (s e : spec_float) (raw : Z), SFltb s e = false -> float_range s e raw = None'),
+    ('c14_float_real_statements',
+     '(forall (s e : binary_float 53 1024) (raw : Z), is_finite s = true -> is_finite e = true -> (B2R s < B2R e)%R -> exists x : binary_float 53 1024, float_range (B2SF s) (B2SF e) raw = Some (B2SF x) /\\ is_finite x = true /\\ (B2R s <= B2R x < B2R e)%R) /\\ (forall raw : Z, 0 <= raw < 2 ^ 64 -> exists u : binary_float 53 1024, f_unit raw = B2SF u /\\ is_finite u = true /\\ B2R u = (IZR (raw / 2 ^ 11) * / IZR (2 ^ 53))%R /\\ (0 <= B2R u < 1)%R)'),
 ]
 RULE = ("gen_from_u64 as a pure function: i8/u8 over (start,end) pairs (all 65536 pairs per form in the thorough tier, a "
         "boundary-stratified subset in quick) for a..b and a..=b, every ..b / ..=b / .., crossed with adversarial raws "
